@@ -180,7 +180,19 @@ def run_case(case, acc):
         s = RawSink()
         dump_obs = rx.from_(rows).pipe(rsparquet.dump_to_file(target, schema, batch_size=b, compression=codec,
                                                               row_group_size=case.get('row_group_size')))
+        at_completion = {}
+        if not case.get('fileobj'):
+            # completion of the dump is the signal that the file is there: it is read at that very moment as well
+            def file_at_completion():
+                try:
+                    at_completion['rows'] = pq.read_table(path).to_pylist()
+                except Exception as e:
+                    at_completion['error'] = repr(e)
+            dump_obs = dump_obs.pipe(rx.operators.do_action(on_completed=file_at_completion))
         s.subscribe_to(dump_obs)
+        if 'error' in at_completion or ('rows' in at_completion and classify(rows, at_completion['rows'])):
+            return [viol(case['fam'], 'file-not-complete-when-dump-signals-completion',
+                         dict(case, error=at_completion.get('error'), rows_in_file=len(at_completion.get('rows', []))))]
         if case.get('fileobj') == 'bytesio':
             try:
                 with open(path, 'wb') as f:
